@@ -531,10 +531,66 @@ package grpctunnel
 //@   ensures[C02]     @copied  !old(st.sentHeaders) && md != nil ==> count("ext:Join") == 1
 //@   nopanic[C09]
 
+// API entry points of the server stream: thin delegations whose arguments matter.
 //@ func (*tunnelServerStream).SetHeader
-//@   inline
+//@   ghost r error = nil
+//@   at call setHeader#1
+//@     assert[C02,C13] @lazy arg0 == st && arg1 == md && !arg2
+//@   at aftercall setHeader#1
+//@     ghost r = result
+//@   ensures[C02] @reported result == r
+//@   locks st.writeMu
+//@   assigns nothing
 //@ func (*tunnelServerStream).SendHeader
-//@   inline
+//@   ghost r error = nil
+//@   at call setHeader#1
+//@     assert[C02,C13] @now arg0 == st && arg1 == md && arg2
+//@   at aftercall setHeader#1
+//@     ghost r = result
+//@   ensures[C02] @reported result == r
+//@   locks st.writeMu
+//@   assigns nothing
+//@ func (*tunnelServerStream).SetTrailer
+//@   at call setTrailer#1
+//@     assert[C02] @md arg0 == st && arg1 == md
+//@   locks st.writeMu
+//@   assigns nothing
+//@ func (*tunnelServerStream).Context
+//@   ensures[C04,C07,C17] @streamctx result == st.ctx
+//@   assigns nothing
+//@ func (*tunnelClientStream).Context
+//@   ensures[C07,C17] @streamctx result == st.ctx
+//@   assigns nothing
+//@ func (*tunnelServerTransportStream).Method
+//@   requires st != nil
+//@   assigns nothing
+//@ func (*tunnelServerTransportStream).SetHeader
+//@   ghost r error = nil
+//@   at call SetHeader#1
+//@     assert[C02] @same id(arg0) == id(st) && arg1 == md
+//@   at aftercall SetHeader#1
+//@     ghost r = result
+//@   ensures[C02] @reported result == r
+//@   locks any tunnelServerStream.writeMu
+//@   assigns nothing
+//@ func (*tunnelServerTransportStream).SendHeader
+//@   ghost r error = nil
+//@   at call SendHeader#1
+//@     assert[C02] @same id(arg0) == id(st) && arg1 == md
+//@   at aftercall SendHeader#1
+//@     ghost r = result
+//@   ensures[C02] @reported result == r
+//@   locks any tunnelServerStream.writeMu
+//@   assigns nothing
+//@ func (*tunnelServerTransportStream).SetTrailer
+//@   ghost r error = nil
+//@   at call setTrailer#1
+//@     assert[C02] @same id(arg0) == id(st) && arg1 == md
+//@   at aftercall setTrailer#1
+//@     ghost r = result
+//@   ensures[C02] @reported result == r
+//@   locks any tunnelServerStream.writeMu
+//@   assigns nothing
 
 //@ func (*tunnelServerStream).setTrailer
 //@   locks st.writeMu
@@ -754,6 +810,11 @@ package grpctunnel
 //@   ensures[C13,C14] @once count("carrierSend") == 1
 //@   assigns nothing
 //@   nopanic[C09]
+
+//@ func WithDisableFlowControl$1
+//@   requires opts != nil
+//@   ensures[C11] @disables opts.disableFlowControl
+//@   assigns opts.disableFlowControl
 
 //@ func (*tunnelOpts).supportedRevisions
 //@   assigns nothing
@@ -1476,6 +1537,35 @@ package grpctunnel
 //@   ensures[C10] @stopping atomicLoad(s.stopping)
 //@   nopanic[C09]
 
+// The pooled channel over all reverse tunnels is wired to the handler's own
+// global registry; the per-key one (KeyAsChannel$1..3 below) to the key asked for.
+//@ func (*TunnelServiceHandler).AsChannel
+//@   requires s != nil
+//@   at store pick#1
+//@     assert[C12] @pick bound(arg1, "pick", s.reverse)
+//@   at store ready#1
+//@     assert[C12] @ready bound(arg1, "ready", s.reverse)
+//@   at store waitForReady#1
+//@     assert[C12] @wait bound(arg1, "waitForReady", s.reverse)
+//@   assigns nothing
+
+//@ func (*TunnelServiceHandler).KeyAsChannel
+//@   requires s != nil
+//@   at store pick#1
+//@     assert[C12] @pick isClosure(arg1, "KeyAsChannel$1")
+//@   at store ready#1
+//@     assert[C12] @ready isClosure(arg1, "KeyAsChannel$2")
+//@   at store waitForReady#1
+//@     assert[C12] @wait isClosure(arg1, "KeyAsChannel$3")
+//@   assigns nothing
+
+//@ func (*TunnelServiceHandler).AllReverseTunnels
+//@   requires s != nil
+//@   at call allChans#1
+//@     assert[C12] @global arg0 == s.reverse
+//@   locks any reverseChannels.mu
+//@   assigns nothing
+
 //@ func (multiChannel).Invoke
 //@   at call Invoke#1
 //@     assert[C12,C17] @forwarded arg0 == ctx && arg1 == methodName && arg2 == req && arg3 == resp && sameSlice(arg4, opts)
@@ -1485,6 +1575,21 @@ package grpctunnel
 //@ func (multiChannel).NewStream
 //@   at call NewStream#1
 //@     assert[C12,C17] @forwarded arg0 == ctx && arg1 == desc && arg2 == methodName && sameSlice(arg3, opts)
+//@   assigns *
+
+//@ func (multiChannel).Ready
+//@   ghost r bool = false
+//@   at aftercall ready#1
+//@     ghost r = result
+//@   ensures[C12] @delegates count("call:ready") == 1 && result == r
+//@   assigns *
+//@ func (multiChannel).WaitForReady
+//@   ghost r error = nil
+//@   at call waitForReady#1
+//@     assert[C12] @ctx arg0 == ctx
+//@   at aftercall waitForReady#1
+//@     ghost r = result
+//@   ensures[C12] @delegates count("call:waitForReady") == 1 && result == r
 //@   assigns *
 
 //@ funcfield (*multiChannel).pick ()
